@@ -1,0 +1,12 @@
+//go:build verif
+
+package encoding
+
+// VerifDecoders lists the members of the group in the order Decode tries them (read-only view for
+// verification harnesses).
+func (g *DecoderGroup[S, T]) VerifDecoders() []Decoder[S, T] {
+	g.mu.RLock()
+	defer g.mu.RUnlock()
+
+	return append([]Decoder[S, T](nil), g.decoders...)
+}
